@@ -35,6 +35,7 @@ import (
 	"os"
 	"os/exec"
 	"regexp"
+	"runtime"
 	"sort"
 	"strconv"
 	"strings"
@@ -46,6 +47,7 @@ import (
 	"github.com/refraction-networking/conjure/internal/verifhook"
 	"github.com/refraction-networking/conjure/internal/vlib"
 	"github.com/refraction-networking/conjure/pkg/core"
+	"github.com/refraction-networking/conjure/pkg/phantoms"
 	"github.com/refraction-networking/conjure/pkg/station/log"
 	"github.com/refraction-networking/conjure/pkg/transports/wrapping/min"
 	pb "github.com/refraction-networking/conjure/proto"
@@ -466,6 +468,10 @@ type c06World struct {
 	nextSec uint64
 	ifaces  []*net.IPNet
 	dir     string // scratch directory of the reload part
+	// the connecting-transport part (zz_verif_c06_dialback_test.go)
+	dialback       *c06DialBack
+	selector       *phantoms.PhantomIPSelector
+	idleGoroutines int
 }
 
 type c06Parsed struct {
@@ -1309,6 +1315,9 @@ func TestVerifC06(t *testing.T) {
 		fixed[pi] = w.parsePolicy(pp.pol)
 	}
 
+	// ---- the transport kind: connecting transports (dial-back) next to wrapping ones, every registration source
+	w.dialbackPart(out, r, freePort)
+
 	// ---- configurations put in force by reloads, every subset of loading steps failing
 	w.reloadPart(out, r, freePort)
 
@@ -1450,6 +1459,27 @@ func (w *c06World) replay(t *testing.T, out *vlib.Out, path string) {
 			pol := c06ParsePolicy(f[1])
 			w.runSched(out, pol, coverts, sch)
 			fmt.Printf("REPLAY workers %q schedule %s policy %s\n", coverts, f[3], pol.String())
+		case strings.HasPrefix(line, "c06db|"):
+			f := strings.Split(line, "|")
+			if len(f) != 7 {
+				t.Fatalf("bad replay line %q", line)
+			}
+			gen, _ := strconv.Atoi(strings.TrimPrefix(f[1], "gen="))
+			cov, err := hex.DecodeString(f[3])
+			src, err2 := strconv.Atoi(f[4])
+			dup, err3 := hex.DecodeString(f[6])
+			if err != nil || err2 != nil || err3 != nil {
+				t.Fatalf("bad replay line %q", line)
+			}
+			w.dialbackSetup()
+			w.settle()
+			if w.idleGoroutines == 0 {
+				w.idleGoroutines = runtime.NumGoroutine()
+			}
+			pp := w.dialbackManager(c06ParsePolicy(f[2]))
+			w.runDialback(out, pp, string(cov), gen, int32(src), f[5] == "1", string(dup))
+			fmt.Printf("REPLAY registration message with covert %q from source %d for the %s transport, policy %s (then the session registered again with %q)\n", cov, src,
+				map[bool]string{true: "connecting", false: "wrapping"}[f[5] == "1"], f[2], dup)
 		case strings.HasPrefix(line, "c06r|"):
 			f := strings.Split(line, "|")
 			if len(f) != 5 {
